@@ -1,32 +1,50 @@
-(* Process-tree model for nested executors (C19).  The two decisions -- may this process create
-   an executor? what depth does a spawned worker get? -- are the GENERATED functions. *)
+(* Process-tree model for nested executors (C19).  The two decisions -- may this process create an executor? what depth does a
+   spawned worker get? -- are the GENERATED functions (Gen/Depth.v).  A process has a real nesting depth (one more than the process
+   that created its executor) and the value of its _CURRENT_DEPTH variable, which is what the generated functions read.  A worker
+   goes through three phases: Loading (its arguments are being unpickled and, for loky_init_main, its main module imported: user
+   code can run, the variable still has the module default 0, and starting a process is refused by spawn._check_not_importing_main),
+   Init (inside _process_worker, the initializer runs) and Running.  When the variable is installed -- on entering
+   _process_worker or only after the initializer -- is a generated fact.  Definitions only; proofs in Proofs/TreeProps.v. *)
 From Coq Require Import List String Ascii ZArith Bool.
 From LokyV Require Import Lib.PyLib Gen.Depth.
 Import ListNotations.
 Open Scope string_scope.
 Open Scope Z_scope.
 
-Record proc := { p_depth : Z; p_parent : option nat }.           (* parent = creator of its executor *)
-Record exec := { x_owner : nat; x_method : string }.
+Inductive phase := Loading | Init | Running.
+Record proc := { p_real : Z; p_var : Z; p_ship : Z; p_phase : phase; p_parent : option nat }.   (* parent = creator of its executor *)
+Record exec := { x_owner : nat; x_method : string; x_loading : bool }.     (* x_loading: constructed while its owner was Loading *)
 Record tree := { procs : list proc; execs : list exec }.
 
-Definition init_tree : tree := {| procs := [{| p_depth := 0; p_parent := None |}]; execs := [] |}.
+Definition root : proc := {| p_real := 0; p_var := 0; p_ship := 0; p_phase := Running; p_parent := None |}.
+Definition init_tree : tree := {| procs := [root]; execs := [] |}.
 
 Inductive op :=
 | Create (p : nat) (method : string)     (* process p constructs a ProcessPoolExecutor *)
-| Spawn (x : nat).                       (* executor x starts a worker: initial fill, respawn after a
-                                            time-out or memory-leak exit, resize, reuse -- all the same *)
-Inductive outcome := Done | RecursionError | NoSuch.
+| Spawn (x : nat)                        (* executor x starts a worker: initial fill, respawn after a time-out or memory-leak exit,
+                                            resize, reuse -- all the same *)
+| Begin (i : nat)                        (* worker i has loaded its arguments and enters _process_worker *)
+| Install (i : nat).                     (* worker i is past its initializer *)
+Inductive outcome := Done | RecursionError | NoSuch | Bootstrapping.
 
-Definition step (MAX : Z) (t : tree) (o : op) : tree * outcome :=
+Definition is_loading (ph : phase) : bool := match ph with Loading => true | _ => false end.
+Fixpoint set_nth {A} (l : list A) (i : nat) (a : A) : list A :=
+  match l, i with
+  | [], _ => []
+  | _ :: r, O => a :: r
+  | x :: r, S j => x :: set_nth r j a
+  end.
+
+Definition step_with (early guard : bool) (MAX : Z) (t : tree) (o : op) : tree * outcome :=
   match o with
   | Create p m =>
       match nth_error (procs t) p with
       | None => (t, NoSuch)
       | Some pr =>
-          match fst (check_max_depth m MAX (p_depth pr) []) with
+          match fst (check_max_depth m MAX (p_var pr) []) with
           | Raise _ => (t, RecursionError)          (* raised before anything is created *)
-          | _ => ({| procs := procs t; execs := execs t ++ [{| x_owner := p; x_method := m |}] |}, Done)
+          | _ => ({| procs := procs t;
+                     execs := execs t ++ [{| x_owner := p; x_method := m; x_loading := is_loading (p_phase pr) |}] |}, Done)
           end
       end
   | Spawn x =>
@@ -36,13 +54,34 @@ Definition step (MAX : Z) (t : tree) (o : op) : tree * outcome :=
           match nth_error (procs t) (x_owner ex) with
           | None => (t, NoSuch)
           | Some pr =>
-              match fst (child_depth (p_depth pr) []) with
-              | Ret d => ({| procs := procs t ++ [{| p_depth := d; p_parent := Some (x_owner ex) |}];
+              if guard && is_loading (p_phase pr) then (t, Bootstrapping) else
+              match fst (child_depth (p_var pr) []) with
+              | Ret d => ({| procs := procs t ++ [{| p_real := p_real pr + 1; p_var := 0; p_ship := d; p_phase := Loading;
+                                                     p_parent := Some (x_owner ex) |}];
                              execs := execs t |}, Done)
               | _ => (t, NoSuch)
               end
           end
       end
+  | Begin i =>
+      match nth_error (procs t) i with
+      | Some pr => match p_phase pr with
+                   | Loading => ({| procs := set_nth (procs t) i {| p_real := p_real pr; p_var := if early then p_ship pr else p_var pr;
+                                                                    p_ship := p_ship pr; p_phase := Init; p_parent := p_parent pr |};
+                                    execs := execs t |}, Done)
+                   | _ => (t, NoSuch) end
+      | None => (t, NoSuch)
+      end
+  | Install i =>
+      match nth_error (procs t) i with
+      | Some pr => match p_phase pr with
+                   | Init => ({| procs := set_nth (procs t) i {| p_real := p_real pr; p_var := p_ship pr; p_ship := p_ship pr;
+                                                                 p_phase := Running; p_parent := p_parent pr |};
+                                 execs := execs t |}, Done)
+                   | _ => (t, NoSuch) end
+      | None => (t, NoSuch)
+      end
   end.
 
+Definition step := step_with worker_installs_depth_before_user_code bootstrapping_process_cannot_spawn.
 Definition run (MAX : Z) (ops : list op) : tree := fold_left (fun t o => fst (step MAX t o)) ops init_tree.
